@@ -76,7 +76,7 @@ theorem cOrigin (H : Bytes → Bytes) (v : Nat) : AllOrigin v (cLeaf H v) ∧ Al
 
 theorem cLookup (H : Bytes → Bytes) (v : Nat) : lookup (cLeaf H v) [1] ≠ lookup (cFull v) [1] := by
   have h2 : lookup (cFull v) [1] = some [1] := by simp [cFull, cL₁, upd, lookup]
-  rw [h2, cLeaf, lookup_leaf]
+  rw [h2, cLeaf, lookup_leaf_c]
   intro h
   split at h
   · split at h
